@@ -3,6 +3,9 @@
 package sched
 
 import (
+	"bytes"
+	"runtime"
+	"strconv"
 	"sync"
 	"time"
 
@@ -28,6 +31,9 @@ var (
 	sink  *trace.Sink
 	// Filter, when set, decides whether a hook event is logged (gates always work).
 	Filter func(point string) bool
+	// Mapper, when set, rewrites the key/values of a hook event before it is logged
+	// (e.g. concrete ports -> abstract port indices, run ids -> session aliases).
+	Mapper func(point string, kv []any) []any
 )
 
 func toKV(kv []any) KV {
@@ -54,10 +60,26 @@ func SetSink(s *trace.Sink) {
 	mu.Unlock()
 }
 
+// Goid returns the id of the calling goroutine (hooks run synchronously on the goroutine that
+// executes the instrumented code, so it identifies the operation an anonymous hook belongs to).
+func Goid() int64 {
+	var buf [64]byte
+	n := runtime.Stack(buf[:], false)
+	b := bytes.TrimPrefix(buf[:n], []byte("goroutine "))
+	i := bytes.IndexByte(b, ' ')
+	if i < 0 {
+		return 0
+	}
+	id, _ := strconv.ParseInt(string(b[:i]), 10, 64)
+	return id
+}
+
 func handle(point string, kv ...any) {
+	kv = append(kv, "g", Goid())
 	mu.Lock()
 	s := sink
 	f := Filter
+	mp := Mapper
 	var g *Gate
 	if len(gates) > 0 {
 		m := toKV(kv)
@@ -71,7 +93,11 @@ func handle(point string, kv ...any) {
 		if g != nil {
 			mu.Unlock()
 			if s != nil && (f == nil || f(point)) {
-				s.Emit("hook", point, kv...)
+				if mp != nil {
+					s.Emit("hook", point, mp(point, kv)...)
+				} else {
+					s.Emit("hook", point, kv...)
+				}
 			}
 			select {
 			case g.hit <- m:
@@ -83,7 +109,11 @@ func handle(point string, kv ...any) {
 	}
 	mu.Unlock()
 	if s != nil && (f == nil || f(point)) {
-		s.Emit("hook", point, kv...)
+		if mp != nil {
+			s.Emit("hook", point, mp(point, kv)...)
+		} else {
+			s.Emit("hook", point, kv...)
+		}
 	}
 }
 
